@@ -158,15 +158,20 @@ static int hashmap_put(m_map_t *m, const char *key, void *value) {
     
     int ret;
     
+    /* An existing key is updated (or refused) in place: no need to make room for it */
+    map_elem *entry = hashmap_entry_find(m, key, false);
+    
     /* Rehash with 2x capacity if load factor is approaching 0.75 */
-    if (m->table_size <= hashmap_table_min_size_calc(m->length)) {
+    if (!entry && m->table_size <= hashmap_table_min_size_calc(m->length)) {
         ret = hashmap_rehash(m);
         if (ret != 0) {
             return ret;
         }
     }
     
-    map_elem *entry = hashmap_entry_find(m, key, true);
+    if (!entry) {
+        entry = hashmap_entry_find(m, key, true);
+    }
     if (!entry) {
         /*
          * Cannot find an empty slot.  Either out of memory, or using
